@@ -158,6 +158,9 @@ type Leg struct {
 	Procs     int     `json:"procs"`
 	Workers   int     `json:"workers"`
 	Prop      string  `json:"prop,omitempty"` // scenario family run by this leg (default: the property itself)
+	// Closed: nothing outside the goroutines under test can unblock them; a stuck run whose
+	// goroutine dump shows all of them blocked is reported as a deadlock by the runner
+	Closed bool `json:"closed,omitempty"`
 }
 
 // Meta is what the runner needs to know about a property's check.
@@ -244,6 +247,7 @@ func RunOne(t *testing.T, p *Prop, sc Scenario, tier string, keepTrace int) (res
 
 		return res
 	}
+	returned := false
 	func() {
 		defer func() {
 			if r := recover(); r != nil {
@@ -255,6 +259,12 @@ func RunOne(t *testing.T, p *Prop, sc Scenario, tier string, keepTrace int) (res
 						res.Extra = map[string]string{}
 					}
 					res.Extra["bubble_end"] = msg
+					if !returned {
+						// the property's run function itself never came back (its oracle parked at
+						// a hook, or waits for something that cannot happen): nothing it would have
+						// checked after that point was checked
+						res.HarnessError = "the run function did not return before the bubble ended: " + msg + "\n" + kernel.LibraryStacks(true)
+					}
 
 					return
 				}
@@ -273,6 +283,7 @@ func RunOne(t *testing.T, p *Prop, sc Scenario, tier string, keepTrace int) (res
 				k.EndOfWorld()
 			}()
 			p.Run(env, sc)
+			returned = true
 		})
 	}()
 	res.Choices = sched.Record
